@@ -476,6 +476,11 @@ def rule_assign_constraints(chk, prog, tier):
         ops.append(('ptr_cint', w.temp(cint, 'pci'), {'k': 'ptr', 'pointee': 'cint', 'type': cint}))
         sv2 = w.mkstruct(size=8, align=4)
         ops.append(('struct2', w.temp(sv2, 's2'), {'k': 'struct2'}))
+        # left operands of incomplete type: *(void *)p, *p with an incomplete structure or enum type
+        inc = w.mkstruct(size=0, align=0); inc.obj.f[('incomplete',)] = 1
+        ien = w.mkenum(w.t('uint')); ien.obj.f[('incomplete',)] = 1; ien.obj.f[('base',)] = None
+        for nm, t_ in (('void-lvalue', w.t('void')), ('incomplete-struct', inc), ('incomplete-enum', ien)):
+            ops.append((nm, w.temp(t_, nm), {'k': 'incomplete'}))
         cur = {}; seq = {'i': 0}
         tokobj = it.gobj('tok')
         def settok(k):
@@ -519,8 +524,10 @@ def rule_assign_constraints(chk, prog, tier):
                     continue      # function pointer <-> void *: constraint violation tolerated as a common extension, not judged
                 ok = (lp[0] == rp[0] or 'void' in (lp[0], rp[0])) and (rp[1] & ~lp[1]) == 0
         elif L['k'] in ('struct', 'struct2'): ok = R['k'] == L['k']
+        elif L['k'] == 'incomplete': ok = False           # not a modifiable lvalue (6.3.2.1p1)
         else: continue
-        r.instance((got == 'ok') == ok, 'assign:%s=%s' % (ln, rn), 'expr.c:%s' % fn.get('line'), 'C11 6.5.16.1: %s; cproc: %s' % ('valid' if ok else 'constraint violation, must be diagnosed', got))
+        if R['k'] == 'incomplete': continue      # using the value of an incomplete object is judged where it is loaded, not here
+        r.instance(got == ('ok' if ok else 'error'), 'assign:%s=%s' % (ln, rn), 'expr.c:%s' % fn.get('line'), 'C11 6.5.16.1: %s; cproc: %s' % ('valid' if ok else 'constraint violation, must be diagnosed (with a diagnostic, not an internal failure)', got))
     r.exhaustive = True
 
 
